@@ -86,7 +86,7 @@ def run(m, rep, tier):
 
         def owner_functions(name, seen=()):
             """the lifetime functions a static helper works for (None if it can be reached from anywhere else)"""
-            if name in allowed:
+            if name in allowed or name in names:
                 return {name}
             g = mod.fn(name)
             if g is None or g.linkage != 'internal' or name in seen or not callers.get(name):
@@ -106,7 +106,9 @@ def run(m, rep, tier):
                     own = owner_functions(f.name)
                     if c.callee in allowed.get(f.name, ()):
                         m4.ok(site, 'lifetime function', c.loc())
-                    elif own and all(c.callee in allowed[o] for o in own):
+                    elif own and all((c.callee in allowed.get(o, ())) or (o in names and c.callee == 'free') for o in own):
+                        # a private helper: what it frees is judged, path by path, in the entry points that reach it (M1/M2
+                        # run on their fully inlined bodies and gate every free on the reference decrement that returned 1)
                         m4.ok(site, 'static helper used only by %s' % ', '.join(sorted(own)), c.loc())
                     else:
                         m4.violation(site, '%s is called in %s: blocks must be allocated / released only by the lifetime functions, whose counting M1/M2 check'
